@@ -29,3 +29,79 @@ impl futures::io::AsyncRead for SlowReader<'_> {
         Poll::Ready(Ok(n))
     }
 }
+
+// ---------------------------------------------------------------------------------------------
+// counting allocator: per-thread largest single request while armed; refuses (=> abort, caught by
+// the worker journal) requests above the cap so an unbounded allocation becomes a visible event
+// instead of an OOM kill.
+
+pub mod alloc_guard {
+    use std::alloc::{GlobalAlloc, Layout, System};
+    use std::cell::Cell;
+
+    thread_local! {
+        static ARMED_CAP: Cell<usize> = const { Cell::new(0) };
+        static MAX_REQ: Cell<usize> = const { Cell::new(0) };
+        static TOTAL_REQ: Cell<usize> = const { Cell::new(0) };
+    }
+
+    pub struct CountingAlloc;
+
+    #[inline]
+    fn note(size: usize) -> bool {
+        // returns false if the request must be refused
+        let cap = ARMED_CAP.try_with(|c| c.get()).unwrap_or(0);
+        if cap != 0 {
+            let _ = MAX_REQ.try_with(|m| {
+                if size > m.get() {
+                    m.set(size)
+                }
+            });
+            let _ = TOTAL_REQ.try_with(|t| t.set(t.get().saturating_add(size)));
+            if size > cap {
+                let msg = b"ALLOC-CAP single allocation request above the cap\n";
+                unsafe {
+                    libc::write(2, msg.as_ptr() as *const libc::c_void, msg.len());
+                }
+                return false;
+            }
+        }
+        true
+    }
+
+    unsafe impl GlobalAlloc for CountingAlloc {
+        unsafe fn alloc(&self, layout: Layout) -> *mut u8 {
+            if !note(layout.size()) {
+                return std::ptr::null_mut();
+            }
+            System.alloc(layout)
+        }
+        unsafe fn dealloc(&self, ptr: *mut u8, layout: Layout) {
+            System.dealloc(ptr, layout)
+        }
+        unsafe fn alloc_zeroed(&self, layout: Layout) -> *mut u8 {
+            if !note(layout.size()) {
+                return std::ptr::null_mut();
+            }
+            System.alloc_zeroed(layout)
+        }
+        unsafe fn realloc(&self, ptr: *mut u8, layout: Layout, new_size: usize) -> *mut u8 {
+            if !note(new_size) {
+                return std::ptr::null_mut();
+            }
+            System.realloc(ptr, layout, new_size)
+        }
+    }
+
+    /// arm on this thread: requests above `hard_cap` abort the process; returns nothing
+    pub fn arm(hard_cap: usize) {
+        MAX_REQ.with(|m| m.set(0));
+        TOTAL_REQ.with(|m| m.set(0));
+        ARMED_CAP.with(|c| c.set(hard_cap));
+    }
+    /// disarm; returns (largest single request, sum of requests) seen while armed
+    pub fn disarm() -> (usize, usize) {
+        ARMED_CAP.with(|c| c.set(0));
+        (MAX_REQ.with(|m| m.get()), TOTAL_REQ.with(|m| m.get()))
+    }
+}
